@@ -310,6 +310,7 @@ void run_cfg(vf::Ctx &c, const Cfg &cfg) {
       if (ev[i].kind != RET_FF || !ev[i].b) continue;
       int f = ev[i].a, ci = -1;
       for (int j = (int)i; j >= 0; --j) if (ev[j].kind == CALL_FF && ev[j].a == f && ev[j].thread == ev[i].thread) { ci = j; break; }
+      int last_export = ci;  // latest Export entry that carried a record added before the flush was called
       for (int j = 0; j < ci; ++j) {
         if (ev[j].kind != RET_ADD) continue;
         int tag = ev[j].a;
@@ -318,10 +319,15 @@ void run_cfg(vf::Ctx &c, const Cfg &cfg) {
         if (b < 0 || sh.batch_enter_idx[b] > (int)i)
           fail("C02:flush-incomplete", vf::sfmt("ForceFlush #%d returned true at [%zu] but record %d, whose add had returned at [%d] before the flush was called at [%d], %s",
                                                 f, i, tag, j, ci, b < 0 ? "was never exported" : "was exported only afterwards"));
+        if (sh.batch_enter_idx[b] > last_export) last_export = sh.batch_enter_idx[b];
       }
-      bool xff = false;
-      for (int j = ci; j < (int)i; ++j) if (ev[j].kind == XFF_ENTER) xff = true;
-      if (!xff) fail("C02:flush-without-exporter-flush", vf::sfmt("ForceFlush #%d returned true at [%zu] but the exporter's ForceFlush was not invoked between its call and its return", f, i));
+      // "... has been passed to Export AND the exporter's own ForceFlush has been invoked": a flush of the
+      // exporter that was issued before the data reached it flushes nothing, so the exporter's ForceFlush must
+      // be entered after the last of those Exports (and before the processor's ForceFlush returns).
+      bool xff = false, xff_any = false;
+      for (int j = ci; j < (int)i; ++j) if (ev[j].kind == XFF_ENTER) { xff_any = true; if (j > last_export) xff = true; }
+      if (!xff_any) fail("C02:flush-without-exporter-flush", vf::sfmt("ForceFlush #%d returned true at [%zu] but the exporter's ForceFlush was not invoked between its call and its return", f, i));
+      if (!xff) fail("C02:flush-incomplete:exporter-flushed-before-data", vf::sfmt("ForceFlush #%d returned true at [%zu]: the exporter's ForceFlush was only invoked before the Export at [%d] that carried a record added before the flush was called at [%d]", f, i, last_export, ci));
     }
     // (ii) shutdown
     if (sh.xsd_calls != 1) fail(sh.xsd_calls == 0 ? "C02:exporter-never-shut-down" : "C02:exporter-shutdown-twice", vf::sfmt("the exporter's Shutdown was invoked %d times", sh.xsd_calls));
